@@ -67,6 +67,12 @@ def concrete(inp):
             bad.append("%s %s %s feed: curve separation factor %r, mass basis %r" % (name, model, basis, float(sfc), (yc / (1 - yc)) / (w / (1 - w))))
         if not close(dc.get_psi[0], float(sum(dc.partial_fluxes[0])) * (float(sfc) - 1), 1e-9):
             bad.append("curve psi")
+        if Tp is None and Pp is None:
+            # no permeate condition: flux = permeance x feed partial pressure of the selected model, so the curve must report the membrane's permeances
+            want = [pz.membrane.get_permeance(T, c).value for c in (mix.first_component, mix.second_component)]
+            got = [float(p.value) for p in dc.permeances[0]]
+            if not (close(got[0], want[0], 1e-9) and close(got[1], want[1], 1e-9)):
+                bad.append("%s %s: one-point curve reports permeances %r, the membrane's are %r (curve inverted with another activity model)" % (name, model, got, want))
     return {"ok": not bad, "detail": "; ".join(bad[:3]), "inputs": inp}
 
 
@@ -125,6 +131,10 @@ def entry_points(job, mode, model, basis, K):
             job.prove(tag + "/curve_separation_factor", cs, lift(o["dc_sf"][0]) != (yc / (1 - yc)) / (w / (1 - w)), R_, inputs, fallback=fb, timeout=20)
             job.prove(tag + "/curve_psi", cs, lift(o["dc_psi"][0]) != (lift(dc.partial_fluxes[0][0]) + lift(dc.partial_fluxes[0][1])) * (lift(o["dc_sf"][0]) - 1),
                       R_, inputs, fallback=fb, timeout=20)
+            if mode == "vac":
+                job.prove(tag + "/one_point_curve_permeances", cs,
+                          [lift(dc.permeances[0][i].value) != UF("PERM%d" % (i + 1), fs.T, nonneg=True) for i in (0, 1)],
+                          R_, inputs, fallback=fb, congruence=cg, timeout=20)
             job.record(tag + "/permeate_basis_tag", "discharged" if o["pc"].type == "weight" else "violated", "", nontrivial=False,
                        replay={"fn": R_, "inputs": dict(fb[0])})
         if not got:
